@@ -143,10 +143,15 @@ func runStores(rep *report.Reporter, thorough bool, deadline time.Time) map[stri
 	// version boundaries first (small): every Put/Remove history of depth <= 3 over one packet per
 	// version in {0, 1, 2^31, 2^32, 2^63-1, 2^63, 2^64-2, 2^64-1}
 	vb := enumStores(rep, mkBoundaryUniverse(), 3, 3, deadline)
+	// look-alike names (components that differ in type only): every history of depth <= 3
+	ty := enumStores(rep, mkTypedUniverse(), 3, 3, deadline)
 	cov := enumStores(rep, mkUniverse(thorough), 4, txDepth, deadline)
 	cov["version_boundaries"] = vb
-	if e, _ := vb["exhaustive"].(bool); !e {
-		cov["exhaustive"] = false
+	cov["lookalike_names"] = ty
+	for _, c := range []map[string]any{vb, ty} {
+		if e, _ := c["exhaustive"].(bool); !e {
+			cov["exhaustive"] = false
+		}
 	}
 	return cov
 }
@@ -168,6 +173,60 @@ func mkBoundaryUniverse() *sUniverse {
 	u.queries = []enc.Name{{}, obj}
 	for _, p := range u.pkts {
 		u.queries = append(u.queries, p.name[:2], p.name)
+	}
+	return u
+}
+
+// mkTypedUniverse: packet names that are equal except for the TYPE of one component, or where the
+// value bytes of a generic component equal those of a typed one next to it:
+//
+//	/p/doc/32=metadata/v=1/seg=0   metadata packet of object /p/doc (keyword component)
+//	/p/doc/metadata/v=3/seg=0      segment of the application object /p/doc/metadata (generic)
+//	/p/doc/v=1/seg=0               segment of object /p/doc, version 1
+//	/p/doc/%01/v=2/seg=0           segment of object /p/doc/%01 (generic component with the bytes of v=1)
+//	/p/item/v=2/seg=0  /p/32=item/v=1/seg=0    sibling objects item (generic) and 32=item (keyword)
+//	/p/doc/v=1/seg=1  /p/doc/v=1/off=1        segment 1 and a byte-offset component with the same value
+//
+// No packet name is a prefix of another. Operations: Put and Remove of each, Remove by prefix of
+// every object and of the root; queries: every prefix of every packet name.
+func mkTypedUniverse() *sUniverse {
+	u := &sUniverse{}
+	type pv struct {
+		s   string
+		ver uint64
+	}
+	list := []pv{{"/p/doc/32=metadata/v=1/seg=0", 1}, {"/p/doc/metadata/v=3/seg=0", 3}, {"/p/doc/v=1/seg=0", 1}, {"/p/doc/%01/v=2/seg=0", 2},
+		{"/p/item/v=2/seg=0", 2}, {"/p/32=item/v=1/seg=0", 1}, {"/p/doc/v=1/seg=1", 1}, {"/p/doc/v=1/off=1", 1}}
+	qset := map[string]enc.Name{}
+	for _, p := range list {
+		n := mkName(p.s, 0)
+		if n.String() != p.s {
+			report.Fatal("typed universe: %s parses to %s", p.s, n)
+		}
+		pk := &sPkt{name: n, s: p.s, ver: p.ver}
+		u.pkts = append(u.pkts, pk)
+		u.ops = append(u.ops, sOp{label: "Put(" + pk.s + ")", put: pk})
+		for l := 0; l <= len(n); l++ {
+			qset[nameStr(n[:l])] = n[:l]
+		}
+	}
+	for _, p := range u.pkts {
+		u.ops = append(u.ops, sOp{label: "Remove(" + p.s + ")", rem: p.name})
+	}
+	for _, s := range []string{"/", "/p/doc/32=metadata", "/p/doc/metadata", "/p/doc/v=1", "/p/doc/%01", "/p/item", "/p/32=item"} {
+		n := enc.Name{}
+		if s != "/" {
+			n = mkName(s, 0)
+		}
+		u.ops = append(u.ops, sOp{label: "Remove(" + s + ",prefix)", rem: n, prefix: true})
+	}
+	keys := make([]string, 0, len(qset))
+	for k := range qset {
+		keys = append(keys, k)
+	}
+	sortStrings(keys)
+	for _, k := range keys {
+		u.queries = append(u.queries, qset[k])
 	}
 	return u
 }
